@@ -16,6 +16,23 @@ fn name(i: usize) -> String {
 /// exec adds the observed hash iteration orders `types` and `deps`.
 pub fn exec_topo(input: &Value) -> (Value, Value) {
     let mut g = TypeDependencyGraph::new();
+    // an earlier life of the same graph object: other dependency sets were recorded and the same request was sorted
+    // before the sets were replaced by the ones below (the analyser re-records sets as discovery proceeds)
+    if let Some(pre) = input.get("pre_graph").and_then(|x| x.as_array()) {
+        let mut pre_keys: Vec<String> = Vec::new();
+        for e in pre {
+            let k = e[0].as_str().unwrap_or("").to_string();
+            let deps: HashSet<String> =
+                e[1].as_array().map(|a| a.iter().filter_map(|x| x.as_str().map(String::from)).collect()).unwrap_or_default();
+            pre_keys.push(k.clone());
+            g.add_dependencies(k, deps);
+        }
+        let types: HashSet<String> = strs(input, "request").into_iter().collect();
+        let _ = guarded(|| json!({"sorted": g.topological_sort_types(&types)}));
+        for k in pre_keys {
+            g.add_dependencies(k, HashSet::new());
+        }
+    }
     for e in input["graph"].as_array().cloned().unwrap_or_default() {
         let k = e[0].as_str().unwrap_or("").to_string();
         let deps: HashSet<String> =
@@ -49,8 +66,10 @@ pub fn exec_kahn(input: &Value) -> (Value, Value) {
             _ => DependencyNodeType::Module,
         }
     };
+    // two distinct nodes may carry the same name (`Config` of src/db.rs and of src/app.rs, a command `user` in module
+    // `user`): a node is its (name, path, kind); `alias` maps a label to the name it shows
     let mk = |n: &str| DependencyNode {
-        name: n.to_string(),
+        name: input["alias"].get(n).and_then(|x| x.as_str()).unwrap_or(n).to_string(),
         path: format!("src/{}.rs", n),
         node_type: kind_of(n),
     };
@@ -72,7 +91,7 @@ pub fn exec_kahn(input: &Value) -> (Value, Value) {
         });
     }
     let imp = guarded(|| match r.resolve_build_order() {
-        Ok(v) => json!({"ok": v.iter().map(|n| n.name.clone()).collect::<Vec<_>>()}),
+        Ok(v) => json!({"ok": v.iter().map(|n| n.path.trim_start_matches("src/").trim_end_matches(".rs").to_string()).collect::<Vec<_>>()}),
         Err(e) => json!({"err": e.to_string()}),
     });
     (input.clone(), imp)
@@ -151,6 +170,20 @@ pub fn run(out: &mut Out, tier: &str, rng: &mut Rng) {
                 .flat_map(|i| (0..n).filter(move |j| (code >> (i * n + j)) & 1 == 1).map(move |j| (i, j)))
                 .collect();
             kahn_case(out, n, &edges, "exh");
+            if n == 2 || n == 3 {
+                // every pair of distinct nodes showing one name
+                for i in 0..n {
+                    for j in 0..n {
+                        if i != j {
+                            let nodes: Vec<String> = (0..n).map(name).collect();
+                            let es: Vec<Value> = edges.iter().map(|&(f, t)| json!([name(f), name(t)])).collect();
+                            let mut alias = serde_json::Map::new();
+                            alias.insert(name(j), json!(name(i)));
+                            out.case("kahn", json!({"nodes": nodes, "edges": es, "alias": alias}), json!({"n": n, "tag": "exh-alias"}));
+                        }
+                    }
+                }
+            }
             if n <= 3 {
                 // the same graphs with every kind of node and edge, and with recorded definitions for every subset of
                 // the nodes (neither influences the order)
@@ -199,6 +232,36 @@ pub fn run(out: &mut Out, tier: &str, rng: &mut Rng) {
             edges.swap(i, j);
         }
         kahn_case(out, n, &edges, "rand");
+        if k % 3 == 0 {
+            // two (or three) distinct nodes showing the same name
+            let nodes: Vec<String> = (0..n).map(name).collect();
+            let es: Vec<Value> = edges.iter().map(|&(f, t)| json!([name(f), name(t)])).collect();
+            let i = rng.below(n);
+            let j = (i + 1 + rng.below(n - 1)) % n;
+            let mut alias = serde_json::Map::new();
+            alias.insert(name(j), json!(name(i)));
+            if n >= 3 && rng.chance(1, 3) {
+                let l = (0..n).find(|x| *x != i && *x != j).unwrap();
+                alias.insert(name(l), json!(name(i)));
+            }
+            out.case("kahn", json!({"nodes": nodes, "edges": es, "alias": alias}), json!({"n": n, "tag": "rand-alias"}));
+        }
+        if k % 3 == 1 {
+            // the same request sorted twice on one graph object, the dependency sets re-recorded in between
+            let mut graph: Vec<Value> = Vec::new();
+            let mut pre: Vec<Value> = Vec::new();
+            for i in 0..n {
+                let deps: Vec<String> = (0..n).filter(|j| adj[i] >> j & 1 == 1).map(name).collect();
+                graph.push(json!([name(i), deps]));
+                // before: the transposed relation on a random part of the nodes, nothing on the others
+                let before: Vec<String> = (0..n).filter(|j| adj[*j] >> i & 1 == 1 && rng.chance(2, 3)).map(name).collect();
+                if rng.chance(3, 4) {
+                    pre.push(json!([name(i), before]));
+                }
+            }
+            let request: Vec<String> = (0..n).filter(|i| subset >> i & 1 == 1).map(name).collect();
+            out.case("topo", json!({"graph": graph, "request": request, "pre_graph": pre}), json!({"n": n, "tag": "rand-resort"}));
+        }
         if k % 2 == 0 {
             let salt = if k % 8 == 0 { u64::MAX } else { rng.below(1_000_000) as u64 };
             kahn_case_kinds(out, n, &edges, "rand-kinds", Some(salt));
